@@ -92,6 +92,8 @@ Lemma mod16_range i : 0 <= i mod 16 < W.
 Proof. pose proof (Z.mod_pos_bound i 16). unfold W. lia. Qed.
 
 Ltac inv H := inversion H; subst; clear H.
+Ltac conj_split := repeat match goal with |- _ /\ _ => split end.
+Ltac fin := conj_split; try reflexivity; unfold wf; cbn; conj_split; try reflexivity; try lia; try assumption.
 
 (* the effect of one simulator step on the bookkeeping that is not architectural state *)
 Definition bookkeeping (s s' : sim) (ev : event) : Prop :=
@@ -127,52 +129,52 @@ Proof.
   assert (Hcases: opc = 0 \/ opc = 1 \/ opc = 2 \/ opc = 3 \/ opc = 4 \/ opc = 5 \/ opc = 6 \/ opc = 7 \/ opc = 8 \/
                   opc = 9 \/ opc = 10 \/ opc = 11 \/ opc = 12 \/ opc = 13 \/ opc = 14 \/ opc = 15) by lia.
   repeat (destruct Hcases as [->|Hcases]); [.. | subst opc];
-    cbv beta iota zeta in Hstep |- *; rewrite ?idx_ok_in_mem.
+    cbv beta iota zeta in Hstep |- *; change idx_ok with in_mem in *; change u32 with wrap in *.
   (* LDAM *)
   - destruct (in_mem o) eqn:E; [|discriminate]. inv Hstep. eexists. split; [reflexivity|].
     unfold in_mem in E. apply andb_prop in E. destruct E as [E1 E2]. apply Z.leb_le in E1.
-    pose proof (Hm o E1). repeat split; cbn; try lia; try assumption.
+    pose proof (Hm o E1). fin.
   (* LDBM *)
   - destruct (in_mem o) eqn:E; [|discriminate]. inv Hstep. eexists. split; [reflexivity|].
     unfold in_mem in E. apply andb_prop in E. destruct E as [E1 E2]. apply Z.leb_le in E1.
-    pose proof (Hm o E1). repeat split; cbn; try lia; try assumption.
+    pose proof (Hm o E1). fin.
   (* STAM *)
   - destruct (in_mem o) eqn:E; [|discriminate]. inv Hstep. eexists. split; [reflexivity|].
     unfold in_mem in E. apply andb_prop in E. destruct E as [E1 E2]. apply Z.leb_le in E1.
-    repeat split; cbn; try lia; try assumption. apply wf_mem_wr; assumption.
+    fin. apply wf_mem_wr; assumption.
   (* LDAC *)
-  - inv Hstep. eexists. split; [reflexivity|]. repeat split; cbn; try lia; try assumption.
+  - inv Hstep. eexists. split; [reflexivity|]. fin.
   (* LDBC *)
-  - inv Hstep. eexists. split; [reflexivity|]. repeat split; cbn; try lia; try assumption.
+  - inv Hstep. eexists. split; [reflexivity|]. fin.
   (* LDAP *)
   - inv Hstep. eexists. split; [reflexivity|]. pose proof (wrap_range (pc1 + o)).
-    repeat split; cbn; try lia; try assumption.
+    fin.
   (* LDAI *)
   - destruct (in_mem (wrap (s_areg s + o))) eqn:E; [|discriminate]. inv Hstep. eexists. split; [reflexivity|].
     unfold in_mem in E. apply andb_prop in E. destruct E as [E1 E2]. apply Z.leb_le in E1.
-    pose proof (Hm _ E1). repeat split; cbn; try lia; try assumption.
+    pose proof (Hm _ E1). fin.
   (* LDBI *)
   - destruct (in_mem (wrap (s_breg s + o))) eqn:E; [|discriminate]. inv Hstep. eexists. split; [reflexivity|].
     unfold in_mem in E. apply andb_prop in E. destruct E as [E1 E2]. apply Z.leb_le in E1.
-    pose proof (Hm _ E1). repeat split; cbn; try lia; try assumption.
+    pose proof (Hm _ E1). fin.
   (* STAI *)
   - destruct (in_mem (wrap (s_breg s + o))) eqn:E; [|discriminate]. inv Hstep. eexists. split; [reflexivity|].
     unfold in_mem in E. apply andb_prop in E. destruct E as [E1 E2]. apply Z.leb_le in E1.
-    repeat split; cbn; try lia; try assumption. apply wf_mem_wr; assumption.
+    fin. apply wf_mem_wr; assumption.
   (* BR *)
   - inv Hstep. eexists. split; [reflexivity|]. pose proof (wrap_range (pc1 + o)).
-    repeat split; cbn; try lia; try assumption.
+    fin.
   (* BRZ *)
   - inv Hstep. eexists. split; [reflexivity|]. pose proof (wrap_range (pc1 + o)).
-    repeat split; cbn; try (destruct (s_areg s =? 0); lia); try lia; try assumption.
+    fin; destruct (s_areg s =? 0); lia.
   (* BRN *)
   - inv Hstep. rewrite (to_int_neg _ Ha). eexists. split; [reflexivity|]. pose proof (wrap_range (pc1 + o)).
-    repeat split; cbn; try (destruct (negative (s_areg s)); lia); try lia; try assumption.
+    fin; destruct (negative (s_areg s)); lia.
   (* 0xC *)
   - discriminate.
   (* OPR *)
   - destruct o as [|p|p]; [| |discriminate].
-    + (* BRB *) inv Hstep. eexists. split; [reflexivity|]. repeat split; cbn; try lia; try assumption.
+    + (* BRB *) inv Hstep. eexists. split; [reflexivity|]. fin.
     + destruct p as [p|p|]; [destruct p as [p|p|]| destruct p as [p|p|] |]; try discriminate.
       * (* SVC: o = 3 *)
         destruct (in_mem 1) eqn:E1; [|discriminate].
@@ -181,7 +183,7 @@ Proof.
         destruct (s_areg s) as [|q|q] eqn:Ea; [| |discriminate].
         -- (* exit *)
            destruct (in_mem (wrap (sp + 2))) eqn:E; [|discriminate]. inv Hstep. eexists. split; [reflexivity|].
-           repeat split; cbn; try lia; try assumption.
+           fin.
         -- destruct q as [q|q|]; [discriminate| |].
            ++ destruct q; try discriminate.
               (* read: areg = 2 *)
@@ -191,23 +193,101 @@ Proof.
               destruct (simin inp (rd (s_mem s) (wrap (sp + 2)))) as [b inp2] eqn:Es.
               destruct (in_mem (wrap (sp + 1))) eqn:E3; [|discriminate]. inv Hstep.
               rewrite land_255. eexists. split; [reflexivity|].
-              repeat split; cbn; try lia; try assumption.
+              fin.
               apply wf_mem_wr; [assumption|apply wrap_range|].
               pose proof (Z.mod_pos_bound b 256). unfold W. lia.
            ++ (* write: areg = 1 *)
               destruct (in_mem (wrap (sp + 2))) eqn:E; [|discriminate].
               destruct (in_mem (wrap (sp + 3))) eqn:E3; [|discriminate]. inv Hstep.
               rewrite land_255. eexists. split; [reflexivity|].
-              repeat split; cbn; try lia; try assumption.
+              fin.
       * (* SUB: o = 2 *) inv Hstep. eexists. split; [reflexivity|]. pose proof (wrap_range (s_areg s - s_breg s)).
-        repeat split; cbn; try lia; try assumption.
+        fin.
       * (* ADD: o = 1 *) inv Hstep. eexists. split; [reflexivity|]. pose proof (wrap_range (s_areg s + s_breg s)).
-        repeat split; cbn; try lia; try assumption.
+        fin.
   (* PFIX *)
   - inv Hstep. rewrite Z.mul_comm. rewrite (Z.mul_comm 16 o). eexists. split; [reflexivity|].
-    pose proof (wrap_range (o * 16)). repeat split; cbn; try lia; try assumption.
+    pose proof (wrap_range (o * 16)). fin.
   (* NFIX *)
-  - inv Hstep. eexists. split; [reflexivity|].
-    assert (0 <= Z.lor 4294967040 (wrap (o * 16)) < W) by (apply lor_range; [unfold W; lia | apply wrap_range]).
-    repeat split; cbn; try lia; try assumption.
+  - assert (HK: 0 <= Z.lor 4294967040 (wrap (o * 16)) < W) by (apply lor_range; [unfold W; lia | apply wrap_range]).
+    set (K := Z.lor 4294967040 (wrap (o * 16))) in *. clearbody K.
+    injection Hstep as <- <- <-. eexists. split; [reflexivity|]. fin.
+Qed.
+
+(* ---- bytes the ISA leaves undefined are reported by an exception, never executed ---- *)
+Definition illegal (u : undefined) : Prop :=
+  match u with BadOpcode _ | BadOpr _ | BadSvc _ => True | BadAddress _ => False end.
+
+Theorem undefined_is_reported s inp u :
+  wf s -> Isa.step (arch_of s) inp = Undefined u -> illegal u -> exists m, SimModel.step s inp = SThrow m.
+Proof.
+  intros (Hpc & Ha & Hb & Ho & Hm) Hstep Hill.
+  unfold Isa.step in Hstep. unfold SimModel.step.
+  rewrite fetch_eq, idx_ok_in_mem, shiftr_2.
+  cbn [arch_of pc areg breg oreg mem] in Hstep.
+  destruct (negb (in_mem (s_pc s / 4))) eqn:Epc; [inv Hstep; destruct Hill|].
+  change (fetch {| pc := s_pc s; areg := s_areg s; breg := s_breg s; oreg := s_oreg s; mem := s_mem s |})
+    with (fetch (arch_of s)) in Hstep.
+  pose proof (fetch_range (arch_of s)) as Hf.
+  set (inst := fetch (arch_of s)) in *. clearbody inst.
+  rewrite (opc_eq inst Hf), land_15.
+  assert (Hor: 0 <= Z.lor (s_oreg s) (inst mod 16) < W) by (apply lor_range; [assumption|apply mod16_range]).
+  set (o := Z.lor (s_oreg s) (inst mod 16)) in *. clearbody o.
+  set (pc1 := wrap (s_pc s + 1)) in *. clearbody pc1.
+  assert (Hopc: 0 <= inst / 16 < 16) by (split; [apply Z.div_pos; lia | apply Z.div_lt_upper_bound; lia]).
+  set (opc := inst / 16) in *. clearbody opc.
+  assert (Hcases: opc = 0 \/ opc = 1 \/ opc = 2 \/ opc = 3 \/ opc = 4 \/ opc = 5 \/ opc = 6 \/ opc = 7 \/ opc = 8 \/
+                  opc = 9 \/ opc = 10 \/ opc = 11 \/ opc = 12 \/ opc = 13 \/ opc = 14 \/ opc = 15) by lia.
+  repeat (destruct Hcases as [->|Hcases]); [.. | subst opc];
+    cbv beta iota zeta in Hstep |- *; change idx_ok with in_mem in *; change u32 with wrap in *;
+    repeat match type of Hstep with
+    | (if ?c then _ else _) = _ => destruct c eqn:?; [|inv Hstep; destruct Hill]
+    end; try discriminate.
+  - eexists; reflexivity.
+  - destruct o as [|p|p]; [discriminate| |eexists; reflexivity].
+    destruct p as [p|p|]; [destruct p as [p|p|]| destruct p as [p|p|] |]; try discriminate; try (eexists; reflexivity).
+    destruct (in_mem 1) eqn:E1; [|inv Hstep; destruct Hill].
+    destruct (s_areg s) as [|q|q] eqn:Ea.
+    + destruct (in_mem (wrap (rd (s_mem s) 1 + 2))); [discriminate|inv Hstep; destruct Hill].
+    + destruct q as [q|q|].
+      * eexists; reflexivity.
+      * destruct q; try (eexists; reflexivity).
+        destruct (in_mem (wrap (rd (s_mem s) 1 + 2))); [|inv Hstep; destruct Hill].
+        destruct (simin inp (rd (s_mem s) (wrap (rd (s_mem s) 1 + 2)))).
+        destruct (in_mem (wrap (rd (s_mem s) 1 + 1))); [discriminate|inv Hstep; destruct Hill].
+      * destruct (in_mem (wrap (rd (s_mem s) 1 + 2))); [|inv Hstep; destruct Hill].
+        destruct (in_mem (wrap (rd (s_mem s) 1 + 3))); [discriminate|inv Hstep; destruct Hill].
+    + eexists; reflexivity.
+Qed.
+
+(* ---- whole runs: by induction on the number of instructions ---- *)
+Definition run_matches (r : list event * inputs * arch * stop) (q : list event * inputs * sim * run_end) : Prop :=
+  let '(tr, inp', a', st) := r in
+  let '(tr2, inp2, s2, e2) := q in
+  match st with
+  | Exited c => tr2 = tr /\ inp2 = inp' /\ arch_of s2 = a' /\ e2 = Returned (to_int c)
+  | Cut => tr2 = tr /\ inp2 = inp' /\ arch_of s2 = a' /\ e2 = NoFuel
+  | Stuck (BadAddress _) => True            (* outside C02's quantifier: address not in the simulated memory *)
+  | Stuck (BadOpcode _) | Stuck (BadOpr _) | Stuck (BadSvc _) => tr2 = tr /\ inp2 = inp' /\ arch_of s2 = a' /\ exists m, e2 = Threw m
+  end.
+
+Theorem run_is_isa_trace n : forall s inp evs, wf s -> s_running s = true ->
+  run_matches (Isa.run n (arch_of s) inp evs) (SimModel.run n 0 s inp evs).
+Proof.
+  induction n as [|n IH]; intros s inp evs Hwf Hrun.
+  - cbn [Isa.run SimModel.run]. unfold guard. rewrite Hrun. cbn. auto.
+  - cbn [Isa.run SimModel.run]. unfold guard at 1. rewrite Hrun. cbn [andb negb Z.ltb Z.compare].
+    destruct (Isa.step (arch_of s) inp) as [[[a' inp'] ev]|u] eqn:Es.
+    + destruct (step_refines_isa s inp a' inp' ev Hwf Es) as (s' & Hs & Ha & Hwf' & Hcyc & Hbk).
+      rewrite Hs. destruct ev as [|c|b st|st g].
+      * destruct Hbk as [Hr He]. rewrite <- Ha. apply IH; [assumption|congruence].
+      * destruct Hbk as [Hr He].
+        destruct n; cbn [SimModel.run]; unfold guard; rewrite Hr; cbn [andb negb]; cbn; rewrite He; auto.
+      * destruct Hbk as [Hr He]. rewrite <- Ha. apply IH; [assumption|congruence].
+      * destruct Hbk as [Hr He]. rewrite <- Ha. apply IH; [assumption|congruence].
+    + destruct u as [b|o|a|a].
+      * destruct (undefined_is_reported s inp _ Hwf Es I) as [m Hm]; rewrite Hm; cbn; eauto.
+      * destruct (undefined_is_reported s inp _ Hwf Es I) as [m Hm]; rewrite Hm; cbn; eauto.
+      * destruct (undefined_is_reported s inp _ Hwf Es I) as [m Hm]; rewrite Hm; cbn; eauto.
+      * unfold run_matches. destruct (match SimModel.step s inp with SOk _ => _ | SThrow _ => _ | SUB _ => _ end) as [[[? ?] ?] ?]. exact I.
 Qed.
